@@ -275,7 +275,7 @@ class Driver:
 
 
 def load_known_findings(prop: str) -> list[dict]:
-    f = VERIF / "known_findings.json"
+    f = VERIF / "known_findings" / f"{prop}.json"
     if not f.exists():
         return []
     data = json.loads(f.read_text())
